@@ -1,7 +1,7 @@
 #!/bin/sh
 # usage: lib/intake.sh <property id> <round suffix e.g. r2>   — confirm MUT/1,2 of /tmp/mut2-<id> and run them against the property's check
 cd "$(dirname "$0")/.."
-P=$1; R=$2; WT=/tmp/mut2-$P; [ "$R" = "r1" ] && WT=/tmp/mut-$P; [ "$R" = "r3" ] && WT=/tmp/mut3-$P; [ "$R" = "r4" ] && WT=/tmp/mut4-$P; [ "$R" = "r5" ] && WT=/tmp/mut5-$P; [ "$R" = "r6" ] && WT=/tmp/mut6-$P
+P=$1; R=$2; WT=/tmp/mut2-$P; [ "$R" = "r1" ] && WT=/tmp/mut-$P; [ "$R" = "r3" ] && WT=/tmp/mut3-$P; [ "$R" = "r4" ] && WT=/tmp/mut4-$P; [ "$R" = "r5" ] && WT=/tmp/mut5-$P; [ "$R" = "r6" ] && WT=/tmp/mut6-$P; [ "$R" = "r7" ] && WT=/tmp/mut7-$P
 for i in 1 2; do
   N=$P-$R-$i
   if python3 lib/seedtest.py confirm $WT $i $N > /tmp/confirm-$N.log 2>&1; then
